@@ -162,6 +162,8 @@ func TestEnumFilterOperands(t *testing.T) {
 		get(jpx.Frag{K: "union", U: []jpx.UItem{{Idx: i(1)}, {Idx: i(-2)}}}),
 		get(jpx.Frag{K: "child", Key: "l"}, jpx.Frag{K: "union", U: []jpx.UItem{{Idx: i(0)}, {Idx: i(1)}}}),
 		get(jpx.Frag{K: "union", U: []jpx.UItem{{Key: k("a")}, {Key: k("l")}}}, jpx.Frag{K: "nth", N: 0}),
+		get(jpx.Frag{K: "nth", N: -1}), get(jpx.Frag{K: "nth", N: -3}), get(jpx.Frag{K: "nth", N: 2}),
+		get(jpx.Frag{K: "child", Key: "l"}, jpx.Frag{K: "nth", N: -3}),
 		get(jpx.Frag{K: "wild"}),
 		get(jpx.Frag{K: "slice", S: []int{0, 2}}),
 		get(jpx.Frag{K: "descent"}, jpx.Frag{K: "child", Key: "a"}),
@@ -175,6 +177,7 @@ func TestEnumFilterOperands(t *testing.T) {
 		map[string]any{"a": int64(2), "b": int64(1), "l": []any{int64(2), int64(1)}},
 		[]any{int64(1), int64(2)}, []any{int64(2), int64(1)},
 		map[string]any{"b": int64(2)}, int64(2), nil,
+		[]any{int64(1)}, []any{int64(1), int64(2), int64(1)}, []any{}, map[string]any{"a": int64(1), "l": []any{int64(1), int64(2), int64(3)}},
 	}
 	enc := wx.Enc(data)
 	n := 0
